@@ -72,6 +72,19 @@ fn check_pair(si: usize, b: u8) -> Result<(), String> {
 
 
 
+/// Three times out of four the generated prefix is cut at one of its
+/// sequence-interior positions, so that CAN/SUB arrives inside a sequence.
+/// A pure function of the bytes, so that shrinking and replay agree.
+fn effective_prefix(bytes: &[u8]) -> &[u8] {
+    let cuts = gen::interior_cuts(bytes);
+    let d = digest(bytes);
+    if cuts.is_empty() || d % 4 == 0 {
+        bytes
+    } else {
+        &bytes[..cuts[(d / 4) as usize % cuts.len()]]
+    }
+}
+
 fn run(args: &Args, rep: &mut Report) {
     let tier = args.tier;
     rep.assume("R-VT for bytes >= 0x80 is transcribed from the pinned behaviour (docs: 'some 8-bit codes are still supported'); for 0x00-0x7f it follows Williams' diagram");
@@ -163,6 +176,7 @@ fn run(args: &Args, rep: &mut Report) {
             StreamCfg { max_items: 12, ..StreamCfg::ALL },
             || (gen::stream(StreamCfg { max_items: 12, ..StreamCfg::ALL }), prop::bool::ANY),
             |prefix, (rest, sub), acc| {
+                let prefix = effective_prefix(prefix);
                 let x = if *sub { 0x1a } else { 0x18 };
                 let rest = gen::render(rest);
                 acc.class(&format!("prefix-ends-in-{:?}", vt::state_after(prefix)));
@@ -270,7 +284,8 @@ fn replay(sub: &str, case: &Value) -> Result<(), String> {
             check_pair(s.min(15), b)
         }
         "can-sub-restart" | "can-sub-restart-enum" => {
-            let prefix = case_bytes(case);
+            let full = case_bytes(case);
+            let prefix = if sub == "can-sub-restart" && case.get("text").is_some() { effective_prefix(&full).to_vec() } else { full };
             let rest = rt::unhex(case["aux"]["rest_hex"].as_str().unwrap_or(""));
             let x = case["aux"]["x"].as_u64().unwrap_or(0x18) as u8;
             check_cansub(&prefix, x, &rest).map(|_| ())
